@@ -277,6 +277,32 @@ pub fn huge_case(c: &HugeCase, obs: &mut Obs) -> PResult {
             Out::Panic(p) => return crate::engine::fail("C03/ci_indices/panic", format!("n={n}, q={q:e}, {:?}: {p}", c.conf)),
         }
     }
+    // the ranks are those of the Wilson bounds of round(q n) / n: here through the crate's own proportion interval and
+    // index map applied to the exactly rounded count (the f64 reading of q n is accepted as well) — at these sizes the
+    // closed-form reference cannot resolve single ranks, the composition of the two public functions can
+    if q > 0.0 && q < 1.0 {
+        use num_bigint::BigInt;
+        use num_traits::{Signed, ToPrimitive};
+        let pq = crate::exact::Dy::from_f64(q);
+        let prod = pq.num.clone() * BigInt::from(n);
+        let k_exact = if pq.exp >= 0 { (prod << pq.exp as usize).to_u64() } else { ((prod.abs() + (BigInt::from(1u8) << ((-pq.exp) as usize - 1))) >> (-pq.exp) as usize).to_u64() };
+        let k_float = (q * n as f64).round() as u64;
+        let mut want = vec![];
+        for k in [Some(k_float), k_exact].into_iter().flatten() {
+            if let Out::Ok(Interval::TwoSided(pl, ph)) = call(|| stats_ci::proportion::ci_wilson(c.conf.get(), n as usize, k as usize)) {
+                let st = quantile::Stats::new(n as usize);
+                if let (Ok(lo), Ok(hi)) = (st.index(pl), st.index(ph)) {
+                    want.push((lo, hi));
+                }
+            }
+        }
+        if let (false, Out::Ok(i)) = (want.is_empty(), call(|| quantile::ci_indices(c.conf.get(), n as usize, q))) {
+            let got = (i.left().copied(), i.right().copied());
+            let ok = want.iter().any(|(lo, hi)| got.0.map(|g| g == *lo).unwrap_or(true) && got.1.map(|g| g == *hi).unwrap_or(true));
+            ensure!(ok, "C03/ci_indices/huge_population_ranks", "ci_indices({:?}, {n}, {q:e}) = {i:?}, but the Wilson bounds of round(q n) mapped through Stats::index give {want:?}", c.conf);
+            obs.class("huge/ranks-checked");
+        }
+    }
     obs.nontrivial(&("huge", n, q.to_bits(), c.conf.kind, c.conf.l().to_bits()));
     Ok(())
 }
@@ -568,7 +594,7 @@ pub fn run(run: &mut Run) {
     // populations beyond 2^53
     {
         let mut cases = vec![];
-        for n in [(1u64 << 53) + 1, (1u64 << 53) + 4, 1u64 << 54, (1u64 << 54) + 2, 1u64 << 60, (1u64 << 63) + 12345, u64::MAX, u64::MAX - 1, (1u64 << 53) - 1, 1u64 << 53] {
+        for n in [(1u64 << 53) + 2, (1u64 << 52) + 3, (1u64 << 53) - 2, (1u64 << 53) + 1, (1u64 << 53) + 4, 1u64 << 54, (1u64 << 54) + 2, 1u64 << 60, (1u64 << 63) + 12345, u64::MAX, u64::MAX - 1, (1u64 << 53) - 1, 1u64 << 53] {
             for q in [1.0, 1.0 - f64::EPSILON / 2.0, 1.0 - f64::EPSILON, 0.999999, 0.5, 0.25, 1e-3, 0.0, 5e-324] {
                 for (kind, l) in [(0u8, 0.95), (2, 0.95), (1, 0.9), (0, 0.5)] {
                     cases.push(HugeCase { n, q: X(q), conf: Conf::new(kind, l) });
@@ -579,6 +605,7 @@ pub fn run(run: &mut Run) {
             run.case("huge_population", c, huge_case);
         }
         run.require_class("huge/ok");
+        run.require_class("huge/ranks-checked");
     }
     // random multisets with ties, random permutations
     let s = (prop::collection::vec(0u8..14, 4..=63), prop::collection::vec(any::<u16>(), 63), crate::gen::conf(), 1u32..1000, 0usize..5)
